@@ -32,6 +32,8 @@ def generate(tier, seed):
             c['unequal'] = True
         if k % 2 == 1:       # the Fitter has fitted other sources before (their results are not examined; the judged fit must not depend on them)
             c['warmup'] = [fitcase.gen_source(rng, len(c['wav']), min_fitted=2) for _ in range(rng.randint(1, 2))]
+        if k % 9 == 5:       # the judged source is an object that was fitted before in another state and edited in place since (seed C01_p)
+            c['edited_from'] = fitcase.gen_source(rng, len(c['wav']), min_fitted=2)
     # function-level correspondence: fitting_routines.* and Source.get_log_fluxes called directly on random arrays
     for _ in range(60 if tier == 'quick' else 1200):
         nb, nm = rng.randint(2, 6), rng.randint(1, 5)
